@@ -155,12 +155,12 @@ EVENTS = [
     (ev(test_status="fail", test_tags=("t",)), "frozenset", False),
     (ev(test_status="uxsuccess", test_tags=()), "set", False),
     (ev(test_status="skip", timestamp=None), None, False),
-    (ev(test_status="xfail", test_tags=("x", "t"), timestamp=None), "set", True),
+    (ev(test_status="xfail", test_tags=("x", "t"), timestamp=None), "set", "all"),
     (ev(test_status="fail", route_code="9", runnable=False), None, True),
     (ev(file_name="f", file_bytes=b"x", eof=True, mime_type="text/plain", route_code="8/7"), None, False),
     (ev(test_id=None, file_name="g", file_bytes=b"", timestamp=None), None, False),
     (ev(test_status="exists", test_tags=("y",)), "frozenset", False),
-    (ev(test_status="success", test_tags=("t",)), "set", True),
+    (ev(test_status="success", test_tags=("t",)), "set", "all"),
     (ev(test_status="unknown", test_tags=()), "frozenset", False),
     (ev(test_status="inprogress", test_tags=("t",), timestamp=None), "set", False),
     (ev(test_status="success", route_code=""), None, False),  # an empty route code is not "no route code"
@@ -188,7 +188,10 @@ def send(top, spec, after=lambda: None):
     kw["test_tags"] = tag_obj
     before = None if tag_obj is None else frozenset(tag_obj)
     t0 = datetime.datetime.now(UTC)
-    if positional:
+    if positional == "all":
+        # every argument in the documented positional order
+        top.status(*[kw[f] for f in ("test_id", "test_status", "test_tags", "runnable", "file_name", "file_bytes", "eof", "mime_type", "route_code", "timestamp")])
+    elif positional:
         tid = kw.pop("test_id")
         st = kw.pop("test_status")
         top.status(tid, st, **kw)
